@@ -329,7 +329,8 @@ def _native_solve(et, physics, backend="scipy", dup=False, orphan=False, nonline
     n1 = np.where(np.isclose(c[:, 0], xmax))[0]
     nd = len(unk)
     simu.add_dirichlet(n0, [0.0] * nd, unk)
-    simu.add_dirichlet(n1, [lambda x, y, z: 0.1 + 0.05 * y] + [0.0] * (nd - 1), unk)
+    # unknowns listed in reverse (non-storage) order: values[i] belongs to unknowns[i]
+    simu.add_dirichlet(n1, ([lambda x, y, z: 0.1 + 0.05 * y] + [0.0] * (nd - 1))[::-1], unk[::-1])
     expected = {}
     for nn in n0:
         for d in range(nd):
